@@ -245,7 +245,9 @@ pub fn seeded_config(cases: u32, seed: u64) -> (Config, TestRng) {
         z = crate::util::mix(z);
         chunk.copy_from_slice(&z.to_le_bytes());
     }
-    let cfg = Config { cases, failure_persistence: None, max_shrink_iters: 4000, rng_seed: RngSeed::Fixed(seed), ..Config::default() };
+    // every evaluation of a prefilled case costs about a second: bound the shrinking effort there
+    let max_shrink_iters = if PREFILL.with(|p| p.get()).is_some() { 48 } else { 4000 };
+    let cfg = Config { cases, failure_persistence: None, max_shrink_iters, rng_seed: RngSeed::Fixed(seed), ..Config::default() };
     (cfg, TestRng::from_seed(RngAlgorithm::ChaCha, &bytes))
 }
 
@@ -300,7 +302,9 @@ pub fn search<W: WorldDriver>(spec: &PropSpec, cfg: &Cfg, cases: u32, max_len: u
         // proptest shrinks the records; finish with a greedy pass deleting whole ops
         let fails = |c: &Case| Session::<W>::run(c, cfg).fail.map(|f| f.tags.contains(&spec.id)).unwrap_or(false);
         let mut changed = true;
-        while changed {
+        let mut passes = 0;
+        while changed && (passes < 2 || PREFILL.with(|p| p.get()).is_none()) {
+            passes += 1;
             changed = false;
             let mut i = 0;
             while i < case.ops.len() {
